@@ -16,7 +16,13 @@ func init() {
 // specific value without spending a deviation).
 var Forced []uint64 // cleared on reset
 
-func draw() uint64 {
+func draw() uint64 { return drawN(true) }
+
+// fresh never repeats an earlier value: used for 63-bit draws, whose
+// collisions are not a realistic event (2^-63), unlike 31-bit object ids.
+func fresh() uint64 { return drawN(false) }
+
+func drawN(mayRepeat bool) uint64 {
 	if len(Forced) > 0 {
 		v := Forced[0]
 		Forced = Forced[1:]
@@ -28,7 +34,7 @@ func draw() uint64 {
 		n = 3
 	}
 	c := 0
-	if vrt.Exploring() && n > 0 {
+	if mayRepeat && vrt.Exploring() && n > 0 {
 		c = vrt.Choose(1+n, "rand")
 	}
 	if c > 0 {
@@ -40,8 +46,8 @@ func draw() uint64 {
 	return v
 }
 
-func Int() int       { return int(draw() & 0x7fffffff) }
+func Int() int       { return int(fresh() & 0x7fffffffffff) }
 func Uint32() uint32 { return uint32(draw()) }
-func Int63() int64   { return int64(draw() & 0x7fffffffffffffff) }
+func Int63() int64   { return int64(fresh() & 0x7fffffffffffffff) }
 func Intn(n int) int { return int(draw() % uint64(n)) }
 func Seed(int64)     {}
